@@ -22,6 +22,16 @@ DfsOK(g, c) ==
     /\ NoDup(c.seq3) /\ SeqRange(c.seq3) = ReachFrom(g, c.t)
     /\ NoDup(c.seq4) /\ SeqRange(c.seq4) = ReachFrom(g, c.s)       \* foreign map, then reset
     /\ NoDup(c.seq5) /\ SeqRange(c.seq5) = ReachFrom(g, c.s)       \* through Walker::iter (WalkerIter)
+\* move_to in the middle of a traversal: what was emitted stays discovered, the pending stack is dropped; the rest is
+\* exactly what is reachable from the new start without passing through an emitted node (nothing if t was emitted)
+RECURSIVE ReachAvoidSet(_, _, _)
+ReachAvoidSet(g, X, avoid) == LET T == X \cup {w \in UNION {Succ(g, u) : u \in X} : w \notin avoid} IN
+                               IF T = X THEN X ELSE ReachAvoidSet(g, T, avoid)
+DfsMidOK(g, c) ==
+    LET done == SeqRange(c.pre) IN
+    /\ NoDup(c.pre) /\ done \subseteq ReachFrom(g, c.s)
+    /\ NoDup(c.post)
+    /\ SeqRange(c.post) = (IF c.t \in done THEN {} ELSE ReachAvoidSet(g, {c.t}, done))
 \* DfsPostOrder: a node only after each successor that cannot reach it back
 PostOK(g, seq, s, already) ==
     /\ NoDup(seq) /\ SeqRange(seq) = ReachFrom(g, s) \ already
@@ -133,6 +143,8 @@ Bad(r) ==
     \cup chk("dpo_rev", h, LAMBDA x, v : \A j \in DOMAIN v : DpoOK(x, v[j]))
     \cup chk("bfs", g, LAMBDA x, v : \A j \in DOMAIN v : BfsOK(x, v[j]))
     \cup chk("bfs_rev", h, LAMBDA x, v : \A j \in DOMAIN v : BfsOK(x, v[j]))
+    \cup chk("dfsmid", g, LAMBDA x, v : \A j \in DOMAIN v : DfsMidOK(x, v[j]))
+    \cup chk("dfsmid_rev", h, LAMBDA x, v : \A j \in DOMAIN v : DfsMidOK(x, v[j]))
     \cup chk("topo", g, LAMBDA x, v : TopoOK(x, v))
     \cup chk("topo_rev", h, LAMBDA x, v : TopoOK(x, v))
     \cup chk("topoi", g, LAMBDA x, v : \A j \in DOMAIN v : TopoInitOK(x, v[j]))
